@@ -587,8 +587,9 @@ def errorCause (s : Sim) (ci : CallInfo) : Option String :=
   else if s.valueMethodDone then some "target-consumed"
   else if s.ended then some "clients-dropped"
   else match s.served with
-    | some r => if r == "err:reply-maxsize" && s.bigReplyIssued then some "F6" else if r.startsWith "err:req" && s.policyFail then some "policy-fail"
-                else if s.poisonedCl.contains ci.cl then some "F10" else some "server-returned"
+    | some r => if s.poisonedCl.contains ci.cl then some "F10"
+                else if r == "err:reply-maxsize" && s.bigReplyIssued then some "F6" else if r.startsWith "err:req" && s.policyFail then some "policy-fail"
+                else some "server-returned"
     | none => if s.poisonedCl.contains ci.cl then some "F10" else none
 
 def allDropped (s : Sim) : Bool := s.clientsAlive.all (· == false)
